@@ -9,7 +9,7 @@ namespace {
 using namespace BaseGraph;
 
 struct Counters {
-    uint64_t secondRoundTrips = 0, bigFiles = 0, largeIndexGraphs = 0, roundTrips = 0, linesParsedIndependently = 0, formatFiles = 0, commentLines = 0, whitespaceRuns = 0, nameFiles = 0, namesChecked = 0, labelReads = 0,
+    uint64_t zeroPaddedFiles = 0, secondRoundTrips = 0, bigFiles = 0, largeIndexGraphs = 0, roundTrips = 0, linesParsedIndependently = 0, formatFiles = 0, commentLines = 0, whitespaceRuns = 0, nameFiles = 0, namesChecked = 0, labelReads = 0,
              fuzzInputs = 0, fuzzReturned = 0, fuzzThrew = 0, zeroVertexGraphs = 0, noEdgeGraphs = 0, isolatedTails = 0, filesWithoutFinalNewline = 0;
     uint64_t fuzzByExc[6] = {0};
     ObsCounters oc;
@@ -248,12 +248,20 @@ template <template <class...> class GT, class L> void format(Reporter &R, uint64
         while (r.chance(1, 4)) text += commentLine(r) + "\n";
     };
     auto order = insertionOrder(s, 2, r);
+    // one file in five is column-aligned the way a person would write it: decimal indices padded with zeros to one width
+    unsigned padTo = r.chance(1, 5) ? 2 + r.u(3) : 0;
+    if (padTo) ++C.zeroPaddedFiles;
+    auto idx = [&](VertexIndex v) {
+        std::string t = std::to_string(v);
+        while (t.size() < padTo) t = "0" + t;
+        return t;
+    };
     for (size_t i = 0; i < order.size(); ++i) {
         maybeComments();
         auto &e = order[i];
         L l = Codec<L>::make(1 + r.below(1000000));
         std::string lt = Codec<L>::enc(l);
-        std::string line = wsRun(r, true) + std::to_string(e.first) + wsRun(r, false) + std::to_string(e.second);
+        std::string line = wsRun(r, true) + idx(e.first) + wsRun(r, false) + idx(e.second);
         if (LT<L>::labelled && !lt.empty()) {
             line += wsRun(r, false) + lt;
             if (std::is_same<L, std::string>::value && r.chance(1, 5)) {
@@ -502,6 +510,7 @@ template <template <class...> class GT, class L> void fuzz(Reporter &R, uint64_t
 void flush(Reporter &R) {
     C.oc.flush(R);
     R.count("text_round_trips", C.roundTrips);
+    R.count("hand_written_files_with_zero_padded_indices", C.zeroPaddedFiles);
     R.count("round_trips_of_a_loaded_graph", C.secondRoundTrips);
     R.count("graphs_with_large_vertex_indices", C.largeIndexGraphs);
     R.count("files_of_thousands_of_lines_round_tripped", C.bigFiles);
